@@ -48,9 +48,15 @@ pub const DEFAULT_KP_REUSE: bool = false;
 pub const DEFAULT_ACCOUNT_KEY_TYPE: KeyType = KeyType::EcdsaP256;
 pub const DEFAULT_EXTERNAL_ACCOUNT_JWA: JwsSignatureAlgorithm = JwsSignatureAlgorithm::Hs256;
 pub const DEFAULT_POOL_NB_TRIES: usize = 20;
+#[cfg(not(feature = "breard_r_acmed_verif"))]
 pub const DEFAULT_POOL_WAIT_SEC: u64 = 5;
+#[cfg(feature = "breard_r_acmed_verif")]
+pub const DEFAULT_POOL_WAIT_SEC: u64 = 0;
 pub const DEFAULT_HTTP_FAIL_NB_RETRY: usize = 10;
+#[cfg(not(feature = "breard_r_acmed_verif"))]
 pub const DEFAULT_HTTP_FAIL_WAIT_SEC: u64 = 1;
+#[cfg(feature = "breard_r_acmed_verif")]
+pub const DEFAULT_HTTP_FAIL_WAIT_SEC: u64 = 0;
 pub const DEFAULT_HOOK_ALLOW_FAILURE: bool = false;
 pub const MAX_RATE_LIMIT_SLEEP_MILISEC: u64 = 3_600_000;
 pub const MIN_RATE_LIMIT_SLEEP_MILISEC: u64 = 100;
